@@ -374,6 +374,8 @@ def check_encloses_curved(case, ctx):
     for s in specs:
         if s[0] == 'L' and s[1] == s[2]:
             ctx.discard('zero-length line')
+        if s[0] in 'QC' and len({tuple(p) for p in s[1:]}) < 2:
+            ctx.discard('point-like (nodal) Bezier segment: the line/Bezier solver refuses it by design')
     q, o = complex(*case['q']), complex(*case['o'])
     poly = flatten(specs)
     size = max(poly.real.max() - poly.real.min(), poly.imag.max() - poly.imag.min())
